@@ -86,6 +86,12 @@ __attribute__((unused)) static int write_file(const fcase* fc, const char* path,
                                       (carquet_field_repetition_t)fc->cols[i].rep, fc->cols[i].tlen) != CARQUET_OK) { carquet_schema_free(sc); return -1; }
     carquet_writer_options_t wo; carquet_writer_options_init(&wo);
     wo.compression = (carquet_compression_t)fc->codec; wo.page_size = fc->page;
+    /* options the pinned writer documents but does not act on: set to small / unusual values in a third of the cases (a
+     * function of the case, so that a replay sets the same).  Row groups are cut by carquet_writer_new_row_group only; the
+     * model ignores these options exactly as the code does, so a writer that starts honouring one of them shows up as a
+     * difference in the bytes. */
+    if ((fc->ncols + fc->nsteps) % 3 == 0) { wo.row_group_size = 1 + (fc->nsteps * 37) % 300; wo.dictionary_page_size = 1 + fc->nsteps; }
+    if ((fc->ncols + fc->nsteps) % 5 == 0) { wo.write_page_index = true; wo.write_bloom_filters = true; }
     carquet_writer_t* w = carquet_writer_create(path, sc, &wo, &err);
     if (!w) { carquet_schema_free(sc); return -1; }
     for (int i = 0; i < fc->nsteps; i++) {
